@@ -22,6 +22,8 @@ import traceback
 
 VERIF = os.path.dirname(os.path.dirname(os.path.abspath(__file__)))
 SRC = os.path.realpath(os.environ.get("VERIF_SIMFILE_SRC", "/repo"))
+# where evidence/ and replays/ are written; only diverted when checks are pointed at a scratch copy (seeded changes)
+OUT = os.environ.get("VERIF_OUT") or VERIF
 NPROC = int(os.environ.get("VERIF_NPROC", "0")) or (os.cpu_count() or 1)
 CASE_TIMEOUT_S = float(os.environ.get("VERIF_CASE_TIMEOUT", "30"))
 
@@ -355,7 +357,7 @@ class Run:
         wall = time.time() - self.t0
         replay_paths = []
         if acc.violations:
-            rdir = os.path.join(VERIF, "replays", self.prop)
+            rdir = os.path.join(OUT, "replays", self.prop)
             os.makedirs(rdir, exist_ok=True)
             rev = source_revision()
             for i, v in enumerate(acc.violations):
@@ -407,8 +409,8 @@ class Run:
             "wall_s": round(wall, 3),
             "violations": int(acc.violation_count),
         }
-        os.makedirs(os.path.join(VERIF, "evidence"), exist_ok=True)
-        path = os.path.join(VERIF, "evidence", f"{self.prop}.json")
+        os.makedirs(os.path.join(OUT, "evidence"), exist_ok=True)
+        path = os.path.join(OUT, "evidence", f"{self.prop}.json")
         tmp = path + ".tmp"
         with open(tmp, "w") as f:
             json.dump(evidence, f, indent=1, ensure_ascii=True)
